@@ -43,7 +43,7 @@ theorem pen_attr_order :
      ModeLayout.pen_reverse, ModeLayout.pen_strike, ModeLayout.pen_altfont, ModeLayout.pen_blink,
      ModeLayout.pen_sizepos, ModeLayout.n_pen_attrs] = [1, 2, 3, 4, 5, 6, 7, 8, 9, 10, 11] ∧
     [ModeLayout.sizepos_normal, ModeLayout.sizepos_superscript, ModeLayout.sizepos_subscript] = [0, 2, 3] ∧
-    [ModeLayout.under_none, ModeLayout.under_single] = [0, 1] := by decide
+    [ModeLayout.under_none, ModeLayout.under_single, ModeLayout.under_double] = [0, 1, 2] := by decide
 
 theorem mouse_enum :
     [ModeLayout.mouse_off, ModeLayout.mouse_click, ModeLayout.mouse_drag, ModeLayout.mouse_move] = [0, 1, 2, 3] := by decide
@@ -157,60 +157,60 @@ theorem getctl_last_set (cfg : Cfg) (hk : cfg.keypadRecorded = true) (hr : cfg.r
 def keypadHistory : List Op := [.ctl (some .keypadApp) 1]
 
 set_option maxRecDepth 8000 in
-theorem teardown_restores_counterexample_keypad (p r : Bool) : ¬ TeardownRestores ⟨false, p, r⟩ := by
+theorem teardown_restores_counterexample_keypad (p u r : Bool) : ¬ TeardownRestores ⟨false, p, u, r⟩ := by
   intro h
   have h1 := (h false {} keypadHistory .running rfl rfl).2
   revert h1
-  cases p <;> cases r <;> decide
+  cases p <;> cases u <;> cases r <;> decide
 
 set_option maxRecDepth 8000 in
 /-- … and through the toplevel instance: `tick; unref` (what `t/60tickit-setup.c` pins). -/
-theorem teardown_restores_counterexample_setup (p r : Bool) : ¬ TeardownRestores ⟨false, p, r⟩ := by
+theorem teardown_restores_counterexample_setup (p u r : Bool) : ¬ TeardownRestores ⟨false, p, u, r⟩ := by
   intro h
   have h1 := (h true {} [.tick false] .running rfl rfl).2
   revert h1
-  cases p <;> cases r <;> decide
+  cases p <;> cases u <;> cases r <;> decide
 
 set_option maxRecDepth 8000 in
-theorem getctl_last_set_counterexample_keypad (p r : Bool) : ¬ GetctlLastSet ⟨false, p, r⟩ := by
+theorem getctl_last_set_counterexample_keypad (p u r : Bool) : ¬ GetctlLastSet ⟨false, p, u, r⟩ := by
   intro h
   have h1 := h false keypadHistory .running rfl
   revert h1
-  cases p <;> cases r <;> decide
+  cases p <;> cases u <;> cases r <;> decide
 
 /-- Replies not guarded: `ctl cursorvis 0; <DECRPM ?25;1$y arrives>; unref` leaves the cursor hidden,
     and the control reads 1 after 0 was set. -/
 def lateReplyHistory : List Op := [.ctl (some .cursorvis) 0, .replyMode 25 1]
 
 set_option maxRecDepth 8000 in
-theorem teardown_restores_counterexample_late_reply (k p : Bool) : ¬ TeardownRestores ⟨k, p, false⟩ := by
+theorem teardown_restores_counterexample_late_reply (k p u : Bool) : ¬ TeardownRestores ⟨k, p, u, false⟩ := by
   intro h
   have h1 := (h false {} lateReplyHistory .running rfl rfl).2
   revert h1
-  cases k <;> cases p <;> decide
+  cases k <;> cases p <;> cases u <;> decide
 
 set_option maxRecDepth 8000 in
 /-- After the late reply the shadow says "visible" while the terminal's cursor is hidden: the next
     `ctl cursorvis 1` is taken for redundant and writes nothing, so the terminal and the value last set differ
     while running. -/
-theorem shadow_inv_counterexample_late_reply (k p : Bool) : ¬ ShadowInv ⟨k, p, false⟩ := by
+theorem shadow_inv_counterexample_late_reply (k p u : Bool) : ¬ ShadowInv ⟨k, p, u, false⟩ := by
   intro h
   have h1 := h false {} (lateReplyHistory ++ [.ctl (some .cursorvis) 1]) rfl rfl
   revert h1
-  cases k <;> cases p <;> decide
+  cases k <;> cases p <;> cases u <;> decide
 
 set_option maxRecDepth 8000 in
-theorem getctl_last_set_counterexample_late_reply (k p : Bool) : ¬ GetctlLastSet ⟨k, p, false⟩ := by
+theorem getctl_last_set_counterexample_late_reply (k p u : Bool) : ¬ GetctlLastSet ⟨k, p, u, false⟩ := by
   intro h
   have h1 := h false lateReplyHistory .running rfl
   revert h1
-  cases k <;> cases p <;> decide
+  cases k <;> cases p <;> cases u <;> decide
 
 /-- The triggers are exactly what the partial theorems exclude: both counterexample histories are
     inside the contract and are *not* trigger-free for the unrepaired variants. -/
-example : validFrom .running keypadHistory = some .running ∧ ¬ TriggerFree ⟨false, true, true⟩ false keypadHistory := by
+example : validFrom .running keypadHistory = some .running ∧ ¬ TriggerFree ⟨false, true, true, true⟩ false keypadHistory := by
   decide
-example : validFrom .running lateReplyHistory = some .running ∧ ¬ TriggerFree ⟨true, true, false⟩ false lateReplyHistory := by
+example : validFrom .running lateReplyHistory = some .running ∧ ¬ TriggerFree ⟨true, true, true, false⟩ false lateReplyHistory := by
   decide
 
 /-! ### non-vacuity: a non-trivial history inside the contract, for both kinds of terminal -/
@@ -241,7 +241,7 @@ example : getctlOk (sysAfter Cfg.repaired false sampleHistory).term.drv (ghostAf
   getctl_last_set Cfg.repaired rfl rfl false sampleHistory .running (by decide)
 /-- The partial theorems are not vacuous on the tree as found: a history with mouse, cursor and
     alternate screen but no keypad and prompt replies is trigger-free. -/
-example : TriggerFree ⟨false, false, false⟩ false
+example : TriggerFree ⟨false, false, false, false⟩ false
     [.replyMode 25 1, .ctl (some .altscreen) 1, .ctl (some .cursorvis) 0, .ctl (some .mouse) 1, .pause, .resume] := by decide
 
 /-! ### `pen_survives_pause` -/
@@ -275,19 +275,19 @@ theorem cached_pen_is_logical (cfg : Cfg) (toplevel : Bool) (m0 : VModes) (ops :
 def pausePenHistory : List Op := [.setpen (fun a => if a = .bold then some 1 else none), .pause, .resume]
 
 set_option maxRecDepth 8000 in
-theorem pen_survives_pause_counterexample (k r : Bool) : ¬ PenSurvivesPause ⟨k, false, r⟩ := by
+theorem pen_survives_pause_counterexample (k u r : Bool) : ¬ PenSurvivesPause ⟨k, false, u, r⟩ := by
   intro h
   have h1 := h false {} pausePenHistory rfl
   revert h1
-  cases k <;> cases r <;> decide
+  cases k <;> cases u <;> cases r <;> decide
 
 set_option maxRecDepth 8000 in
 /-- … and the next `setpen bold` indeed emits no byte on the unrepaired variant. -/
 theorem pause_pen_next_setpen_silent :
-    ((sysAfter ⟨true, false, true⟩ false pausePenHistory).step ⟨true, false, true⟩
+    ((sysAfter ⟨true, false, true, true⟩ false pausePenHistory).step ⟨true, false, true, true⟩
       (.setpen (fun a => if a = .bold then some 1 else none))).out = [] := by decide
 
-example : validFrom .running pausePenHistory = some .running ∧ ¬ PenTriggerFree ⟨true, false, true⟩ false pausePenHistory := by
+example : validFrom .running pausePenHistory = some .running ∧ ¬ PenTriggerFree ⟨true, false, true, true⟩ false pausePenHistory := by
   decide
 
 example : penShown (vtAfter Cfg.repaired true {} sampleHistory).attrs (ghostAfter Cfg.repaired true sampleHistory).pen = true :=
@@ -300,7 +300,7 @@ example : (vtAfter Cfg.repaired false {} sampleHistory).attrs .bold = 1 ∧
 
 /-- The partial theorem is not vacuous on the tree as found: pens with pause/resume are fine as long as the
     pen cached at resume is a default one. -/
-example : PenTriggerFree ⟨false, false, false⟩ false
+example : PenTriggerFree ⟨false, false, false, false⟩ false
     [.setpen (fun a => if a = .bold then some 1 else none), .setpen PenMap.empty, .pause, .resume,
      .setpen (fun a => if a = .bold then some 1 else none)] := by decide
 
